@@ -9,7 +9,7 @@ That J*u equals the reported velocities is arithmetic of the per-node recursion 
           inward (outermost level to 0: a body's accumulated force needs its children's) -- the sweep order that makes one the adjoint
           of the other -- and calcBodyAccelerationFromUDot outward; every node of every level on every iteration path."""
 from ..facts import extract, units_matching, Program
-from ..columns import columns, node_sweeps
+from ..columns import body_outputs, index_space, NODE_UNITS, NODE_HDR, columns, node_sweeps
 
 UNITS = r"/Simbody/src/(SimbodyMatterSubsystem|SimbodyMatterSubsystemRep)\.cpp$"
 S = "SimTK::SimbodyMatterSubsystem::"
@@ -30,14 +30,29 @@ def run(chk, tier, overlays=()):
     chk.rule("SWEEP", "multiplyBySystemJacobian sweeps the levels from 0 upwards (parents before children), its transpose from the outermost level to 0 (children before parents), "
              "calcBodyAccelerationFromUDot outward; every node of every level on every iteration path")
     node_sweeps(chk, P, SWEEPS, direction=DIRECTION)
+    chk.rule("INDEXSPACE", "sibling agreement between the generic node template and the hand-written node classes (lone particle, weld): a pointer parameter that RigidBodyNodeSpec<dof> "
+             "reads with fromU/toU is a u-space array and must be subscripted with uIndex in every other implementation of the same virtual, one read with fromQ/toQ with qIndex")
+    nunits = units_matching(NODE_UNITS)
+    PN = Program(extract(nunits, hdr=NODE_HDR, overlays=overlays))
+    chk.units += nunits
+    chk.nfunctions += len(PN.fns)
+    index_space(chk, PN, methods={"multiplyBySystemJacobian", "multiplyBySystemJacobianTranspose", "calcBodyAccelerationsFromUdotOutward", "calcEquivalentJointForces"})
+    chk.rule("OUTWRITE", "sibling agreement on outputs: a per-body output array that belongs to the operator's caller and whose own entry [nodeNum] the generic node template assigns in a pass "
+             "is assigned on every path by every other implementation of that pass too (Ground: entry 0) -- the sweeps never pre-zero these arrays")
+    PRr = Program(extract(units_matching(r"/Simbody/src/SimbodyMatterSubsystemRep\.cpp$"), hdr="^$", overlays=overlays))
+    body_outputs(chk, PN, methods={"multiplyBySystemJacobian", "multiplyBySystemJacobianTranspose", "calcBodyAccelerationsFromUdotOutward", "calcEquivalentJointForces"}, PR=PRr)
     chk.floor("COLUMNS", 40)
     chk.floor("SWEEP", 10)
+    chk.floor("OUTWRITE", 3)
+    chk.floor("INDEXSPACE", 3)
     chk.assumptions += ["the per-node Jacobian recursions, the bias terms and the adjoint identity <F, J u> = <J' F, u> as an equality of values are numerical and not decided"]
 
 
 _S = "Simbody/src/SimbodyMatterSubsystem.cpp"
 _R = "Simbody/src/SimbodyMatterSubsystemRep.cpp"
 MUTATIONS = [
+    dict(name="seeded (sub-agent): lone particle reads its speeds at the q index", arm=True, file="Simbody/src/RigidBodyNode_LoneParticle.cpp",
+         old="    const Vec3& in = Vec3::getAs(&v[uIndex]);", new="    const Vec3& in = Vec3::getAs(&v[qIndex]);", expect="INDEXSPACE:RBNodeLoneParticle::multiplyBySystemJacobian:v"),
     dict(name="system Jacobian (scalar) keeps the previous unit entry", arm=True, file=_S,
          old="        u[j] = 1; rep.multiplyBySystemJacobian(state,u,Ju); u[j] = 0;\n        VectorView col = J_G(j); // 6*nb long; maybe not contiguous!",
          new="        u[j] = 1; rep.multiplyBySystemJacobian(state,u,Ju);\n        VectorView col = J_G(j); // 6*nb long; maybe not contiguous!", expect="COLUMNS:calcSystemJacobian#1:unit#0:entry-reset-to-0"),
